@@ -36,9 +36,17 @@ Value& CHRExpression::value(Context & ctx) const
   case Type::NO_TYPE:
     break;
   case Type::INTEGER:
+    if (val.isNull())
+      break;
+    if (*val.integer() < 0 || *val.integer() > 255)
+      throw RuntimeError(EXC_RT_OUT_OF_RANGE);
     v = Value(new Literal(1, (char)(*val.integer())));
     break;
   case Type::NUMERIC:
+    if (val.isNull())
+      break;
+    if (!(*val.numeric() >= 0.0 && *val.numeric() < 256.0))
+      throw RuntimeError(EXC_RT_OUT_OF_RANGE);
     v = Value(new Literal(1, (char)(*val.numeric())));
     break;
   default:
